@@ -479,6 +479,13 @@ func Gen(seed int64, index int, o GenOpts) *Case {
 			gopIdx := 0
 			frame := 0
 			extraRA := chance(0.15)
+			// zero-length segment: two consecutive random-access units with the same DTS, the
+			// second one with changed parameters
+			zeroSegAt := -1
+			if nParams > 1 && !sp.BFrames && o.Profile != "regular" && o.Profile != "exact" && chance(0.12) {
+				zeroSegAt = 2 + pick(nSegs+1)
+			}
+			twin := false
 			for n := 0; ; n++ {
 				sec := float64(dts) / rate
 				if sec-p.startSec > totalSec {
@@ -488,6 +495,10 @@ func Gen(seed int64, index int, o GenOpts) *Case {
 				ra := pos >= 0 && pos%p.gop == 0
 				if extraRA && pos > 0 && !sp.BFrames && rng.Intn(p.gop*3+1) == 0 {
 					ra = true
+				}
+				if twin {
+					ra = true
+					changeOnRA[gopIdx+1] = true
 				}
 				vo := VideoOpts{RA: ra, ParamIdx: -1, Size: 10 + pick(120)}
 				if ra {
@@ -538,6 +549,13 @@ func Gen(seed int64, index int, o GenOpts) *Case {
 					return Write{Track: ti, PTS: ptsc, NTP: ntp, Data: data, Samples: []int{len(p.b.Samples) - 1}}
 				}})
 				ord++
+				if twin {
+					twin = false
+				} else if ra && gopIdx == zeroSegAt {
+					twin = true
+					c.Features["zero-length-segment"] = true
+					continue // the next unit has the same DTS
+				}
 				dts += p.frameTicks[frame%len(p.frameTicks)]
 				frame++
 			}
